@@ -93,11 +93,119 @@ pub proof fn lemma_first_match_complete(a: Arena, par: Seq<int>, rc: Seq<u32>, y
     }
 }
 
+
+// ---------------------------------------------------------------- labelling: every token sits at the node its bytes spell
+/// bytes on the way from the root to node x
+pub open spec fn bpath(a: Arena, par: Seq<int>, x: int) -> Seq<u8>
+    decreases x
+{
+    if x <= 0 || x >= a.len() || !(0 <= par[x] < x) { Seq::empty() } else { bpath(a, par, par[x]).push(a[x].byte) }
+}
+/// the vocabulary inserted so far: token id -> bytes (ghost; the code has no such object)
+pub type Words = Map<u32, Seq<u8>>;
+pub open spec fn tok_at(a: Arena, x: int) -> u32 { a[x].token_id }
+/// a node's token is a vocabulary entry spelled by the node's path
+pub open spec fn tok_sound(a: Arena, par: Seq<int>, w: Words, x: int) -> bool {
+    a[x].token_id != NO_TOKEN ==> w.dom().contains(a[x].token_id) && w[a[x].token_id] == bpath(a, par, x)
+}
+/// every vocabulary entry has its node
+pub open spec fn has_node(a: Arena, id: u32) -> bool { exists|x: int| 0 <= x < a.len() && #[trigger] tok_at(a, x) == id }
+pub open spec fn linv(a: Arena, par: Seq<int>, w: Words) -> bool {
+    &&& !w.dom().contains(NO_TOKEN)
+    &&& forall|x: int| 0 <= x < a.len() ==> #[trigger] tok_sound(a, par, w, x)
+    &&& forall|id: u32| w.dom().contains(id) ==> #[trigger] has_node(a, id)
+}
+pub open spec fn finv0(a: Arena, par: Seq<int>, rc: Seq<u32>, w: Words) -> bool { sinv0(a, par, rc) && linv(a, par, w) }
+/// the builder holds exactly the vocabulary w: each id at the node its bytes spell (duplicates at sibling leaves), nothing else labelled
+pub open spec fn bwf_a(a: Arena, rc: Seq<u32>, w: Words) -> bool { exists|par: Seq<int>| #[trigger] finv0(a, par, rc, w) }
+pub open spec fn bwf_w(t: &TrieBuilder, w: Words) -> bool { bwf_a(t.nodes@, t.root_children@, w) }
+
+/// largest child of p below x (or -1)
+pub open spec fn prev_child(par: Seq<int>, p: int, x: int) -> int
+    decreases x
+{
+    if x <= 1 { -1 } else if par[x - 1] == p { x - 1 } else { prev_child(par, p, x - 1) }
+}
+pub proof fn lemma_prev_child(par: Seq<int>, p: int, x: int)
+    requires 0 <= x <= par.len(),
+    ensures ({ let y = prev_child(par, p, x);
+        (y == -1 || (0 < y < x && is_child(par, p, y)))
+        && forall|z: int| y < z < x && z > 0 ==> !(#[trigger] is_child(par, p, z)) }),
+    decreases x
+{
+    if x > 1 { if par[x - 1] != p { lemma_prev_child(par, p, x - 1); } }
+}
+/// the ghost parent map is determined by the arena: the links say who is whose child
+pub proof fn lemma_par_unique_upto(a: Arena, p1: Seq<int>, p2: Seq<int>, rc: Seq<u32>, k: int)
+    requires sinv0(a, p1, rc), sinv0(a, p2, rc), 0 <= k <= a.len(),
+    ensures forall|x: int| 0 <= x < k ==> p1[x] == p2[x],
+    decreases k
+{
+    if k > 0 {
+        lemma_par_unique_upto(a, p1, p2, rc, k - 1);
+        let x = k - 1;
+        if x >= 1 {
+            assert(par_at(p1, x));
+            let p = p1[x];
+            assert(is_child(p1, p, x));
+            lemma_prev_child(p1, p, x);
+            let y = prev_child(p1, p, x);
+            if y == -1 {
+                // x is the smallest child of p: it is first_child(p)
+                assert(links_ok(a, p1, p));
+                let f = a[p].first_child;
+                assert(f != NO_NODE);
+                assert(is_child(p1, p, f as int));
+                assert(f == x);
+                assert(links_ok(a, p2, p));
+                assert(is_child(p2, p, f as int));
+            } else {
+                // x follows the child y: it is next_sibling(y)
+                assert(ns_ok(a, p1, y));
+                let n = a[y].next_sibling;
+                assert(is_child(p1, p1[y], x));
+                assert(n != NO_NODE);
+                assert(is_child(p1, p, n as int));
+                assert(n == x);
+                assert(ns_ok(a, p2, y));
+                assert(is_child(p2, p2[y], n as int));
+                assert(p2[y] == p1[y]);
+            }
+        }
+    }
+}
+pub proof fn lemma_par_unique(a: Arena, p1: Seq<int>, p2: Seq<int>, rc: Seq<u32>)
+    requires sinv0(a, p1, rc), sinv0(a, p2, rc),
+    ensures p1 == p2,
+{
+    lemma_par_unique_upto(a, p1, p2, rc, a.len() as int);
+    assert(p1 =~= p2);
+}
+/// paths only depend on the bytes and parents of the nodes above
+pub open spec fn same_above(a0: Arena, par0: Seq<int>, a1: Arena, par1: Seq<int>, z: int) -> bool {
+    par1[z] == par0[z] && a1[z].byte == a0[z].byte
+}
+pub proof fn lemma_bpath_frame(a0: Arena, par0: Seq<int>, a1: Arena, par1: Seq<int>, x: int)
+    requires 0 <= x < a0.len() <= a1.len(), par0.len() == a0.len(), par1.len() == a1.len(),
+        forall|z: int| 0 <= z <= x ==> #[trigger] same_above(a0, par0, a1, par1, z),
+    ensures bpath(a1, par1, x) == bpath(a0, par0, x),
+    decreases x
+{
+    if x > 0 {
+        assert(same_above(a0, par0, a1, par1, x));
+        if 0 <= par0[x] < x { lemma_bpath_frame(a0, par0, a1, par1, par0[x]); }
+    }
+}
+/// what one insert leaves alone: old nodes keep byte and token, nodes added by it carry no token yet
+pub open spec fn frame_ok(ae: Arena, a: Arena, n0: int, x: int) -> bool {
+    if x < n0 { a[x].byte == ae[x].byte && a[x].token_id == ae[x].token_id } else { a[x].token_id == NO_TOKEN }
+}
+
 impl TrieBuilder {
 //@@ fn toktrie/src/toktree.rs TrieBuilder::new
 //@ ret r
 //@ spec
-    ensures bwf(&r), r.nodes@.len() == 1,
+    ensures bwf(&r), r.nodes@.len() == 1, bwf_w(&r, Map::<u32, Seq<u8>>::empty()),
 //@ before builder #3
     proof {
         let a = builder.nodes@;
@@ -111,6 +219,11 @@ impl TrieBuilder {
             assert(rc[b] == NO_NODE);
         }
         assert(sinv0(a, par, rc));
+        let w0 = Map::<u32, Seq<u8>>::empty();
+        assert(a[0].token_id == NO_TOKEN);
+        assert forall|x: int| 0 <= x < a.len() implies #[trigger] tok_sound(a, par, w0, x) by { }
+        assert(linv(a, par, w0));
+        assert(finv0(a, par, rc, w0));
     }
 //@ end
 
@@ -121,10 +234,14 @@ impl TrieBuilder {
         old(self).nodes@.len() + word@.len() < 0xffff_fff0,
         word@.len() == 0 ==> old(self).nodes@[0].token_id == NO_TOKEN, // (the code asserts it: one empty entry at most)
     ensures bwf(final(self)), final(self).nodes@.len() <= old(self).nodes@.len() + word@.len(),
+        // the builder holds the old vocabulary plus this entry, at the node this entry's bytes spell
+        forall|w: Words| #[trigger] bwf_w(old(self), w) && !w.dom().contains(token_id) ==> bwf_w(final(self), w.insert(token_id, word@)),
 //@ body_start
     let ghost n0 = self.nodes@.len();
     let ghost ae = self.nodes@;
     let ghost mut par: Seq<int> = choose|p: Seq<int>| #[trigger] sinv0(self.nodes@, p, self.root_children@);
+    let ghost par_i = par;
+    let ghost rce = self.root_children@;
     assert(NO_TOKEN == 0xff_ffffu32);
 //@ after self.nodes[0].token_id = token_id;
     proof {
@@ -135,6 +252,25 @@ impl TrieBuilder {
         assert forall|x: int, y: int| #[trigger] dup_ok(a1, par, x, y, -1) by { assert(dup_ok(ae, par, x, y, -1)); }
         assert forall|b: int| 0 <= b < 256 implies #[trigger] rc_first(a1, par, rc, b) by { assert(rc_first(ae, par, rc, b)); }
         assert(sinv0(a1, par, rc));
+        assert forall|w: Words| #[trigger] bwf_a(ae, rce, w) && !w.dom().contains(token_id) implies bwf_a(a1, rc, w.insert(token_id, word@)) by {
+            let pw = choose|p: Seq<int>| #[trigger] finv0(ae, p, rce, w);
+            lemma_par_unique(ae, pw, par, rce);
+            let w1 = w.insert(token_id, word@);
+            assert forall|x: int| 0 <= x < a1.len() implies #[trigger] tok_sound(a1, par, w1, x) by {
+                assert(tok_sound(ae, par, w, x));
+                assert forall|z: int| 0 <= z <= x implies #[trigger] same_above(ae, par, a1, par, z) by { }
+                lemma_bpath_frame(ae, par, a1, par, x);
+                if x == 0 { assert(bpath(a1, par, 0) =~= word@); }
+            }
+            assert forall|id: u32| w1.dom().contains(id) implies #[trigger] has_node(a1, id) by {
+                if id == token_id { assert(tok_at(a1, 0) == id); } else {
+                    assert(has_node(ae, id));
+                    let x0 = choose|x: int| 0 <= x < ae.len() && #[trigger] tok_at(ae, x) == id;
+                    assert(tok_at(a1, x0) == id);
+                }
+            }
+            assert(finv0(a1, par, rc, w1));
+        }
     }
 //@ before let mut curr_node_idx = 0;
     proof {
@@ -148,6 +284,12 @@ impl TrieBuilder {
         curr_node_idx < self.nodes@.len(), token_id < 0xff_ffff,
         n0 + word@.len() < 0xffff_fff0, self.nodes@.len() <= n0 + i,
         i < word@.len() ==> first_b(self.nodes@, par, curr_node_idx as int),
+        // labelling frame of this insert
+        n0 <= self.nodes@.len(), ae.len() == n0, par_i.len() == n0,
+        forall|x: int| 0 <= x < n0 ==> par[x] == par_i[x],
+        forall|x: int| 0 <= x < self.nodes@.len() ==> #[trigger] frame_ok(ae, self.nodes@, n0 as int, x),
+        bpath(self.nodes@, par, curr_node_idx as int) == word@.take(i as int),
+        (i > 0 && i == word@.len()) ==> self.nodes@[curr_node_idx as int].token_id == NO_TOKEN,
 //@ after let mut found_existing_path = false;
     let ghost p0 = curr_node_idx as int;
     let ghost al = self.nodes@;
@@ -200,6 +342,9 @@ impl TrieBuilder {
                 if same_slot(al, par, x, y) && y == p0 { assert(first_b(al, par, p0)); }
             }
             assert(sinv(al, par, rc, c));
+            assert(par_at(par, c));
+            assert(bpath(al, par, c) == bpath(al, par, p0).push(al[c].byte));
+            assert(word@.take(i as int).push(word@[i as int]) =~= word@.take(i + 1));
             if i + 1 < word@.len() {
                 assert forall|x: int| !(#[trigger] same_slot(al, par, x, c)) by {
                     if same_slot(al, par, x, c) { assert(nomatch(al, par, p0, x, byte, is_last_byte)); assert(par_at(par, c)); }
@@ -298,6 +443,13 @@ impl TrieBuilder {
             }
         }
         assert(sinv(a1, par, rc1, n));
+        assert forall|x: int| 0 <= x < a1.len() implies #[trigger] frame_ok(ae, a1, n0 as int, x) by {
+            if x < n { assert(frame_ok(ae, a0, n0 as int, x)); }
+        }
+        assert forall|z: int| 0 <= z <= p0 implies #[trigger] same_above(a0, par0, a1, par, z) by { }
+        lemma_bpath_frame(a0, par0, a1, par, p0);
+        assert(bpath(a1, par, n) == bpath(a1, par, p0).push(a1[n].byte));
+        assert(word@.take(i as int).push(word@[i as int]) =~= word@.take(i + 1));
         // when more bytes follow, no child of p0 had this byte at all: the new node is the first with its byte
         if i + 1 < word@.len() {
             assert forall|x: int| !(#[trigger] same_slot(a1, par, x, n)) by {
@@ -318,6 +470,36 @@ impl TrieBuilder {
             assert forall|x: int, y: int| #[trigger] dup_ok(a1, par, x, y, -1) by { assert(dup_ok(az, par, x, y, c)); }
             assert forall|b: int| 0 <= b < 256 implies #[trigger] rc_first(a1, par, rc, b) by { assert(rc_first(az, par, rc, b)); }
             assert(sinv0(a1, par, rc));
+            assert(word@.take(word@.len() as int) =~= word@);
+            assert(az[c].token_id == NO_TOKEN);
+            assert forall|w: Words| #[trigger] bwf_a(ae, rce, w) && !w.dom().contains(token_id) implies bwf_a(a1, rc, w.insert(token_id, word@)) by {
+                let pw = choose|p: Seq<int>| #[trigger] finv0(ae, p, rce, w);
+                lemma_par_unique(ae, pw, par_i, rce);
+                let w1 = w.insert(token_id, word@);
+                assert forall|x: int| 0 <= x < a1.len() implies #[trigger] tok_sound(a1, par, w1, x) by {
+                    assert(frame_ok(ae, az, n0 as int, x));
+                    if x == c {
+                        assert forall|z: int| 0 <= z <= c implies #[trigger] same_above(az, par, a1, par, z) by { }
+                        lemma_bpath_frame(az, par, a1, par, c);
+                    } else if x < n0 {
+                        assert(tok_sound(ae, par_i, w, x));
+                        assert forall|z: int| 0 <= z <= x implies #[trigger] same_above(ae, par_i, a1, par, z) by {
+                            assert(frame_ok(ae, az, n0 as int, z));
+                        }
+                        lemma_bpath_frame(ae, par_i, a1, par, x);
+                    }
+                }
+                assert forall|id: u32| w1.dom().contains(id) implies #[trigger] has_node(a1, id) by {
+                    if id == token_id { assert(tok_at(a1, c) == id); } else {
+                        assert(has_node(ae, id));
+                        let x0 = choose|x: int| 0 <= x < ae.len() && #[trigger] tok_at(ae, x) == id;
+                        assert(frame_ok(ae, az, n0 as int, x0));
+                        assert(x0 != c);
+                        assert(tok_at(a1, x0) == id);
+                    }
+                }
+                assert(finv0(a1, par, rc, w1));
+            }
         }
     }
 //@ end
@@ -331,6 +513,41 @@ pub fn witness_insert(w: Vec<u8>)
     let mut b = TrieBuilder::new(0xff, 10);
     assert(b.nodes@[0].token_id == NO_TOKEN || true);
     b.insert(w.as_slice(), 3);
+}
+/// witness for the labelling contract: two inserts into a fresh builder give a builder holding exactly those two entries,
+/// each at a node spelled by its bytes
+pub fn witness_labelling(w1: Vec<u8>, w2: Vec<u8>)
+    requires w1@.len() == 2, w2@.len() == 1,
+{
+    let mut b = TrieBuilder::new(0xff, 10);
+    let ghost v0 = Map::<u32, Seq<u8>>::empty();
+    b.insert(w1.as_slice(), 3);
+    assert(bwf_w(&b, v0.insert(3, w1@)));
+    b.insert(w2.as_slice(), 5);
+    let ghost v2 = v0.insert(3, w1@).insert(5, w2@);
+    assert(bwf_w(&b, v2));
+    proof {
+        let par = choose|p: Seq<int>| #[trigger] finv0(b.nodes@, p, b.root_children@, v2);
+        assert(v2.dom().contains(3u32));
+        assert(has_node(b.nodes@, 3u32));
+        let x = choose|x: int| 0 <= x < b.nodes@.len() && #[trigger] tok_at(b.nodes@, x) == 3u32;
+        assert(tok_sound(b.nodes@, par, v2, x));
+        assert(bpath(b.nodes@, par, x) == w1@);
+    }
+}
+/// must FAIL: the labelling invariant is satisfiable
+pub proof fn must_fail_finv_contradictory(a: Arena, par: Seq<int>, rc: Seq<u32>, w: Words)
+    requires finv0(a, par, rc, w), w.dom().contains(7u32),
+{
+    assert(false);
+}
+/// must FAIL: an inserted entry is not at an arbitrary other path
+pub fn must_fail_label_elsewhere(w1: Vec<u8>, other: Vec<u8>)
+    requires w1@.len() == 2, other@.len() == 2,
+{
+    let mut b = TrieBuilder::new(0xff, 10);
+    b.insert(w1.as_slice(), 3);
+    assert(bwf_w(&b, Map::<u32, Seq<u8>>::empty().insert(3, other@)));
 }
 pub proof fn must_fail_sinv_contradictory(a: Arena, par: Seq<int>, rc: Seq<u32>)
     requires sinv(a, par, rc, -1),
